@@ -38,7 +38,7 @@ def cli_archives(c, rnd, n, seen):
                 pw = rnd.choice(["correct horse battery", "Pässwörd-länger", "0123456789abcdef0123456789abcdef", "hunter2hunter2"])
                 enc, mode = rnd.choice([("aes", "cbc"), ("aes", "ctr"), ("camellia", "cbc"), ("camellia", "ctr")])
                 kdf = rnd.choice([(["--pbkdf2", "r=1"], "pbkdf2.1"), (["--argon2", "t=1,m=8,p=1"], "argon2.1.8.1")])
-                kind = rnd.choice(["create", "create", "solid", "append", "update", "keepsolid", "stdio"])
+                kind = rnd.choice(["create", "create", "solid", "append", "update", "keepsolid", "stdio", "split", "solidsplit"])
                 encargs = ["--store", "--" + enc, mode] + kdf[0] + ["--password", pw]
                 a = d + "/a.pna"
                 hist = []
@@ -47,10 +47,20 @@ def cli_archives(c, rnd, n, seen):
                     hist.append("%s -> rc %s" % (r["cmd"], r["rc"]))
                     return r
                 plains = [sb.path(d, "src", nm) for nm in names]
-                solid = kind in ("solid", "keepsolid")
+                solid = kind in ("solid", "keepsolid", "solidsplit")
                 n_ctx = len(names)
-                ok = go(["create", a, "-r", d + "/src", "--quiet"] + encargs + (["--solid"] if solid else []))["rc"] == 0
-                before = scan(pw, plains, names if solid else [], [sb.path(a)]) if ok else None
+                # --split: the split writer builds its entries (and, with --solid, ONE solid entry cut over the parts) through
+                # another code path than the plain writer (create_archive_with_split; seeded C08-5 passed it the store options)
+                splitargs = ["--split", str(rnd.choice([150, 260, 400]))] if kind in ("split", "solidsplit") else []
+                ok = go(["create", a, "-r", d + "/src", "--quiet"] + encargs + (["--solid"] if solid else []) + splitargs)["rc"] == 0
+                paths = [sb.path(a)]
+                if splitargs and ok:
+                    k, paths = 1, []
+                    while os.path.exists(sb.path(d, "a.part%d.pna" % k)):
+                        paths.append(sb.path(d, "a.part%d.pna" % k)); k += 1
+                    if not paths:
+                        paths = [sb.path(a)]
+                before = scan(pw, plains, names if solid else [], paths) if ok else None
                 forbidden = list(names) if solid else []
                 if ok and kind == "append":
                     os.makedirs(sb.path(d, "more"))
@@ -87,7 +97,7 @@ def cli_archives(c, rnd, n, seen):
                     if c.hist["cli_command_errors"] == 1:
                         c.notes.append("example of a CLI command that failed (not a verdict): " + "; ".join(hist)[-400:])
                     continue
-                res = scan(pw, plains, forbidden, [sb.path(a)])
+                res = scan(pw, plains, forbidden, paths)
                 ctxs = res["contexts"]
                 i = len(cases)
                 enc_n, mode_n = (1 if enc == "aes" else 2), (0 if mode == "cbc" else 1)
